@@ -66,7 +66,6 @@ package openapiv3
 //@   requires att != nil
 //@   unknown_calls_preserve Parameter.Name, Parameter.In, Parameter.Required, Parameter.AllowEmptyValue
 //@   ensures* mirrors: result != nil && fresh(result) && result.Name == name && result.In == in && result.Required == required && result.AllowEmptyValue == (in != "path")
-//@   modifies all
 //@ func paramsFromPath$1
 //@   params n pn required at
 //@   opt captured private
@@ -80,7 +79,6 @@ package openapiv3
 //@   ensures* query.parameter: (forall i int :: 0 <= i && i < len(wildcards) ==> wildcards[i] != n) ==> last.In == "query" && last.Required == required
 //@   ensures kept: forall k int :: 0 <= k && k < len(res) ==> out[k] == old(res[k])
 //@   loop 1 invariant scan: in == "query" && required == old(required) && (forall j int :: 0 <= j && j <= rangeindex ==> wildcards[j] != n)
-//@   modifies all
 //@ func paramsFromHeadersAndCookies$1
 //@   params name elem att
 //@   opt captured private
@@ -90,7 +88,6 @@ package openapiv3
 //@   ensures* appended: result == nil && (len(out) == len(params) + 1 || len(out) == len(params)) && (len(out) == len(params) + 1 ==> out[len(out) - 1].Name == elem && out[len(out) - 1].In == "header")
 //@   ensures* all.but.authorization: toLower(elem) != "authorization" ==> len(out) == len(params) + 1
 //@   ensures kept: forall k int :: 0 <= k && k < len(params) ==> out[k] == old(params[k])
-//@   modifies all
 //@ func paramsFromHeadersAndCookies$2
 //@   params name elem att
 //@   opt captured private
@@ -99,7 +96,6 @@ package openapiv3
 //@   let out = captured(params)
 //@   ensures* appended: result == nil && len(out) == len(params) + 1 && out[len(out) - 1].Name == elem && out[len(out) - 1].In == "cookie"
 //@   ensures kept: forall k int :: 0 <= k && k < len(params) ==> out[k] == old(params[k])
-//@   modifies all
 
 // ---- generated output does not depend on map iteration order (C09) --------------------------------
 // Every function of this package that ranges over a map is either proved independent of the iteration order
@@ -111,28 +107,23 @@ package openapiv3
 //@   opt inline none
 //@   opt loopframes none
 //@   property C09
-//@   modifies all
 //@ func buildOperation
 //@   opt maprange deterministic
 //@   opt inline none
 //@   opt loopframes none
 //@   property C09
-//@   modifies all
 //@ func buildOperation$2
 //@   opt maprange deterministic
 //@   opt inline none
 //@   opt loopframes none
 //@   property C09
-//@   modifies all
 //@ func buildPaths
 //@   opt maprange deterministic
 //@   opt inline none
 //@   opt loopframes none
 //@   property C09
-//@   modifies all
 //@ func buildTags
 //@   opt maprange deterministic
 //@   opt inline none
 //@   opt loopframes none
 //@   property C09
-//@   modifies all
